@@ -8,7 +8,9 @@ For every witness list of a grammatical vector and every applicable single defec
 model returns exactly the promised error value: header defect ⇒ `ErrInvalidCVSSHeader` (1); illegal value ⇒
 `ErrInvalidMetricValue` (4); removed mandatory metric ⇒ `*ErrMissing{abv}` (103) naming it; repeated metric ⇒
 `*ErrDefinedN{abv}` (102) naming it; unknown abbreviation ⇒ `*ErrInvalidMetric{abv}` (101) naming it.
-All five cases hold for the model; nothing had to be weakened.
+All five cases hold for the model; nothing had to be weakened. The order defects `swap`/`move` and `truncate` are
+not applicable to v3 (`Defect.apply` is `none`: the metric order is free in v3, see `move_is_no_defect` below for
+an example of a moved element being accepted).
 -/
 namespace C18.V3
 open Proofs Proofs.Parse3
@@ -109,6 +111,8 @@ theorem defect_generic (ver : Version) (hver : ver = .v30 ∨ ver = .v31)
     rcases hver with rfl | rfl <;> simp [Defect.apply] at hd
   | truncate n =>
     rcases hver with rfl | rfl <;> simp [Defect.apply] at hd
+  | move i j =>
+    rcases hver with rfl | rfl <;> simp [Defect.apply] at hd
 
 /-- **C18, v3.0** -/
 theorem errors_v30 (w : List Pair) (d : Defect) (s : Bytes) (e : Spec.ErrVal)
@@ -198,6 +202,11 @@ example : (Defect.unknown 9 (Spec.b "av") (Spec.b "N")).apply .v31 w₀ =
     some (Spec.b "CVSS:3.1/AV:N/AC:L/PR:N/UI:N/S:U/C:H/I:H/A:H/E:F/av:N", (101, Spec.b "av")) := by decide
 example : (Defect.unknown 0 [] []).apply .v30 w₀ =
     some (Spec.b "CVSS:3.0/:/AV:N/AC:L/PR:N/UI:N/S:U/C:H/I:H/A:H/E:F", (101, [])) := by decide
+
+/-- `move`/`swap` promise nothing in v3: the order is free, the moved vector is accepted -/
+example : (Defect.move 8 0).apply .v31 w₀ = none ∧ (Defect.swap 0).apply .v30 w₀ = none := by decide
+theorem move_is_no_defect :
+    (Model.parse31 (Spec.b "CVSS:3.1/E:F/AV:N/AC:L/PR:N/UI:N/S:U/C:H/I:H/A:H")).isOk = true := by decide
 
 /-! ## Instances. **Final instantiation**: supply `contract30` / `contract31`; `hz`, `hs` are then `rfl`. -/
 section Instances
